@@ -257,7 +257,43 @@ func (fr *Frame) load(addr string, t types.Type) *Val {
 }
 
 func (fr *Frame) loadAssume(addr string, t types.Type, v *Val) {
-	fr.vc.assume(imp(fr.reach, typeInv(t, v.L, fr.st.wm)))
+	vc := fr.vc
+	vc.assume(imp(fr.reach, typeInv(t, v.L, fr.st.wm)))
+	// a cell that still holds the value it had when its heap was last havoced
+	// (function entry, loop head) was well formed with respect to the watermark
+	// of that moment: nothing allocated since can overlap what it refers to
+	leaves := flatten(t)
+	for i, l := range leaves {
+		if l.Kind != lkBase && l.Kind != lkPtr {
+			continue
+		}
+		arr0, wm0 := l.Key+"_0", "wm0"
+		if ep, ok := fr.st.epoch[l.Key]; ok {
+			arr0, wm0 = ep[0], ep[1]
+		}
+		if wm0 == fr.st.wm || arr0 == "?" {
+			continue
+		}
+		if !vc.declared[arr0] && strings.HasSuffix(arr0, "_0") {
+			continue
+		}
+		a := add(addr, intLit(int64(l.Slot)))
+		same := eq(v.L[i], sel(arr0, a))
+		var fact string
+		if l.Kind == lkPtr {
+			pt, ok := l.Cell.Underlying().(*types.Pointer)
+			if !ok {
+				continue
+			}
+			fact = or(eq(v.L[i], "0"), le(add(v.L[i], intLit(int64(allocSlots(pt.Elem())))), wm0))
+		} else if isStringT(l.Cell) {
+			fact = le(add(v.L[i], v.L[i+1]), wm0)
+		} else {
+			es := int64(slots(elemOf(l.Cell)))
+			fact = le(add(v.L[i], mul(v.L[i+2], intLit(es))), wm0)
+		}
+		vc.assume(imp(and(fr.reach, same), fact))
+	}
 }
 
 func (fr *Frame) storeVal(addr string, t types.Type, v *Val) {
@@ -412,7 +448,20 @@ func (fr *Frame) mergeStates(cs []condState) *State {
 	if len(cs) == 1 {
 		return cs[0].st.clone()
 	}
-	out := &State{heap: map[string]string{}, ghost: map[string]string{}}
+	out := &State{heap: map[string]string{}, ghost: map[string]string{}, epoch: map[string][2]string{}}
+	for k, ep := range cs[0].st.epoch {
+		same := true
+		for _, c := range cs[1:] {
+			if c.st.epoch[k] != ep {
+				same = false
+			}
+		}
+		if same {
+			out.epoch[k] = ep
+		} else {
+			out.epoch[k] = [2]string{"?", ""} // unknown: no extra assumption
+		}
+	}
 	keys := map[string]bool{}
 	for _, c := range cs {
 		for k := range c.st.heap {
@@ -923,6 +972,7 @@ func (fr *Frame) execLoopCut(l *Loop, in []*Edge) map[*ssa.BasicBlock][]*Edge {
 		vc.logStores = true
 		snapItems, snapSeen, snapUnsup := len(vc.items), copyCounts(vc.obSeen), len(vc.unsup)
 		snapRets, snapClos, snapNotes := len(fr.rets), len(vc.closures), len(vc.notes)
+		snapHyps := len(vc.hyps)
 		snapVals := fr.vals
 		fr.vals = map[ssa.Value]*Val{}
 		for k, v := range snapVals {
@@ -962,6 +1012,7 @@ func (fr *Frame) execLoopCut(l *Loop, in []*Edge) map[*ssa.BasicBlock][]*Edge {
 		fr.rets = fr.rets[:snapRets]
 		vc.closures = vc.closures[:snapClos]
 		vc.notes = vc.notes[:snapNotes]
+		vc.hyps = vc.hyps[:snapHyps]
 		vc.logStores = saveLog
 		if !grew {
 			frames = vc.inferLoopFrame(vc.storeLog, vc.allocLog, startName+1)
@@ -1080,11 +1131,13 @@ func (fr *Frame) havocHead(l *Loop, phis []*ssa.Phi, pre *State, mod, modGhost m
 	vc := fr.vc
 	st := pre.clone()
 	trial := lc == nil
+	var havoced []string
 	for _, k := range sortedKeys(mod) {
 		lf := leafByKey[k]
 		old := vc.arr(pre, lf)
 		st.heap[k] = vc.fresh(k, "(Array Int "+lf.Sort+")")
 		vc.staticFrame(k, st.heap[k], old)
+		havoced = append(havoced, k)
 	}
 	for _, k := range sortedKeys(modGhost) {
 		st.ghost[k] = vc.fresh("g_"+k, ghostSort(k))
@@ -1094,6 +1147,9 @@ func (fr *Frame) havocHead(l *Loop, phis []*ssa.Phi, pre *State, mod, modGhost m
 		vc.assume(le(pre.wm, st.wm))
 	}
 	_ = trial
+	for _, k := range havoced {
+		st.epoch[k] = [2]string{st.heap[k], st.wm}
+	}
 	fr.st = st
 	for _, phi := range phis {
 		v := fr.havoc(phi.Type(), phi.Name())
